@@ -56,6 +56,9 @@ type Ctx struct {
 
 	// Script, when non-nil, is executed instead of generating operations from the tape.
 	Script []json.RawMessage
+	// Dry asks the world to generate and record its script without running the system under test
+	// (used to obtain the script of a run whose worker process died).
+	Dry bool
 
 	res     *Result
 	h       uint64
@@ -171,6 +174,8 @@ type Property struct {
 	Bubble bool
 	// MemLimitMB, if non-zero, is applied to worker processes with RLIMIT_AS.
 	MemLimitMB int
+	// DryScript: the world can generate its script without running the system (Ctx.Dry).
+	DryScript bool
 	// BatchSize is the number of runs per worker command (smaller for slow runs).
 	BatchSize int
 	// RunTimeoutSeconds is the wall clock watchdog per batch (infrastructure trouble, exit 2).
@@ -208,8 +213,14 @@ var WorkerT *testing.T
 
 // RunTapeOrScript executes a run from a script when one is given, else from the tape.
 func RunTapeOrScript(p *Property, t *tape.Tape, script []json.RawMessage, tier string, wantLog bool) (res *Result) {
+	return RunFull(p, t, script, tier, wantLog, false)
+}
+
+// RunFull is RunTapeOrScript with the dry flag.
+func RunFull(p *Property, t *tape.Tape, script []json.RawMessage, tier string, wantLog, dry bool) (res *Result) {
 	c := NewCtx(t, tier, wantLog)
 	c.Script = script
+	c.Dry = dry
 	defer func() {
 		if r := recover(); r != nil {
 			msg := fmt.Sprint(r)
